@@ -260,14 +260,36 @@ Print Assumptions C17_monotone.
    accessed is not at the head of next_evict and cacheTraffic stops with an AssertionError. *)
 (* with staging pins the clause "never increases with the capacity" is false for cacheTraffic's
    model (and for the code: the witness is replayed by the check): a line is pinned or replaceable
-   depending on the access that brought it in; region 2 = cache runs at two or more capacities
-   of a case with a staging-area access *)
+   depending on the access that brought it in; region 2 = the cases on which the model's own cache
+   totals are not monotone over the capacities (exact, see C17_region2_* below) *)
 Theorem C17_monotone_pins_refuted :
   exists c, c17_wf c = true /\ c17_region c = 2
             /\ map total_reads (vl (vnth 3 (c17_model c))) = [64 - 7; 128 - 7]
             /\ c17_holds c (c17_model c) = false.
 Proof. exact cache_pins_not_monotone. Qed.
 Print Assumptions C17_monotone_pins_refuted.
+
+(* region 2 is exact: it consists of the cases (outside region 1) on which the faithful model's own
+   cache totals increase somewhere over the ascending capacities.  Such a case needs a staging-area
+   access (by C17_monotone_cases), the model fails the oracle on it, and it fails ONLY the
+   monotonicity clause: filter, combine, buffet and, per capacity, fills = min_run, bounds, no
+   failure, no temporary file all hold - so any other violation on such a case is still reported
+   by the correspondence (the implementation must agree with the model on all of these). *)
+Theorem C17_region2_needs_staging : forall c, c17_wf c = true -> c17_region c = 2 -> has_staging c = true.
+Proof. exact region2_needs_staging. Qed.
+Print Assumptions C17_region2_needs_staging.
+
+Theorem C17_region2_fails : forall c, c17_region c = 2 -> holds c17_checker c (model c17_checker c) = false.
+Proof. exact region2_fails. Qed.
+Print Assumptions C17_region2_fails.
+
+Theorem C17_region2_only_monotone : forall c, c17_wf c = true -> c17_region c = 2 ->
+  V_eqb (vnth 0 (model c17_checker c)) (spec_filter_V c) = true
+  /\ V_eqb (vnth 1 (model c17_checker c)) (spec_comb_V c) = true
+  /\ buffet_ok c (vnth 2 (model c17_checker c)) = true
+  /\ forall cap, In cap (k_caps c) -> cache_one_ok c cap (model_cache c cap) = true.
+Proof. exact region2_only_monotone. Qed.
+Print Assumptions C17_region2_only_monotone.
 
 Theorem C17_cache_tie_refuted :
   exists c, c17_wf c = true /\ c17_region c = 1
@@ -284,8 +306,8 @@ Proof. exact spec_min_mono. Qed.
 Print Assumptions C17_monotone_cases.
 
 (* C17_model_meets_spec, unconditional: for every well-formed case outside the two known-finding
-   regions (1: equal next-use stamps of two lines of one binding; 2: staging pins with two or more
-   cache capacities) the faithful model satisfies the whole oracle — filter, combine, buffet
+   regions (1: equal next-use stamps of two lines of one binding; 2: the model's own cache fills
+   increase with the capacity, which needs staging pins) the faithful model satisfies the whole oracle — filter, combine, buffet
    fills and write-backs, cache fills = min_run with its bounds and its monotonicity over the
    case's capacities, no failure, no temporary file *)
 Theorem C17_model_meets_spec : forall c, c17_wf c = true -> c17_region c = 0 ->
